@@ -51,7 +51,10 @@ for p in pkgs:
         if e.get('Action') == 'pass' and e.get('Test'):
             passed.add('%s::%s' % (e['Package'], e['Test']))
     ran += len(want)
-    lost += sorted(want - passed)
+    for t in sorted(want - passed):
+        name = t.split('::')[1].split('/')[0]
+        r2 = sh("go test -vet=off -count=1 -timeout 10m -run '^%s$' ./%s/" % (name, p))
+        if r2.returncode != 0: lost.append(t)
 res['stable_tests_checked'] = ran
 res['stable_tests_lost'] = lost
 # 3. without patch: demo must pass
